@@ -37,7 +37,7 @@ func main() {
 	replace := map[string]string{}
 	// virtual packages
 	for _, p := range []struct{ dir, dst string }{
-		{"vrt", "internal/verif/vrt"}, {"vsync", "internal/verif/vsync"}, {"clock", "internal/holsterv4/clock"},
+		{"vrt", "internal/verif/vrt"}, {"vsync", "internal/verif/vsync"}, {"vatomic", "internal/verif/vatomic"}, {"clock", "internal/holsterv4/clock"},
 	} {
 		ents, err := os.ReadDir(filepath.Join(*shim, p.dir))
 		if err != nil {
@@ -84,7 +84,11 @@ func main() {
 				}
 				changed = true
 			case "sync/atomic":
-				return fmt.Errorf("UNSUPPORTED %s imports sync/atomic: the scheduler engine has no atomic shim yet", rel)
+				imp.Path.Value = strconv.Quote(modPath + "/internal/verif/vatomic")
+				if imp.Name == nil {
+					imp.Name = ast.NewIdent("atomic")
+				}
+				changed = true
 			}
 		}
 		needVrt := false
